@@ -11,7 +11,9 @@ head=''.join(open(f'{out}/demo_test.go').readlines()[:6])
 line=[l for l in head.split('\n') if 'go test' in l]
 m=re.search(r"-run\s+'?([A-Za-z0-9_|^$]+)'?",line[0]) if line else None
 if not m: print('cannot parse demo header',head); sys.exit(2)
-run=m.group(1); target=line[0].split()[-1].rstrip("'")
+run=m.group(1)
+cand=[t.rstrip("'") for t in line[0].split() if t.rstrip("'")=='.' or t.startswith('./')]
+target=cand[-1] if cand else '.' 
 cd=re.search(r"cd (\S+) &&",head)
 if cd and target=='.': target='./'+cd.group(1).strip('/')+'/'
 d=os.path.normpath(os.path.join(wt,target))
